@@ -193,7 +193,10 @@ pub fn run(ctx: &Ctx) {
         for h in ALL_HASHES {
             let n = h.n();
             for w in [1u32, 2, 4, 8] {
-                for (si, levels) in [vec![(w, 2u32)], vec![(8, 2), (w, 2)]].into_iter().enumerate() {
+                for (si, levels) in [vec![(w, 2u32)], vec![(8, 2), (w, 2)], vec![(4, 2), (w, 5)]].into_iter().enumerate() {
+                    if si == 2 && (w == 8 || ctx.quick() && h.index() % 2 == 1) {
+                        continue;
+                    }
                     let total: u64 = 1u64 << levels.iter().map(|l| l.1).sum::<u32>();
                     let lens = [n + 1, n + 2, 2 * n, 55 + n, 64 + n, 1024 + n, n + 3 + (w as usize * 37 + si * 11) % 300];
                     for (li, len) in lens.iter().enumerate() {
